@@ -7,6 +7,9 @@
     discriminating sources: stdout bytes == api(model kwargs).encode() subject to the size rule.
 (c) preserve-list spellings: every way to split <=3 names over repeated flags and commas, with spaces and empty segments.
 (d) validation against the real executable (subprocess): dev(2) vectors, spellings, invalid combinations, --output / stdin modes.
+(e) every documented invalid path / output combination (directory or several paths without --in-place, stdin mixed with paths or with
+    --in-place, --in-place with --output, contradictory annotation flags, no path): non-zero exit, nothing on stdout, no file created or modified,
+    in-process and through the real executable.
 """
 import itertools
 import os
@@ -65,6 +68,7 @@ def tasks(tier):
         t += [('bytes', 'all', i, 128) for i in range(128)]
     t += [('spellings', i, 4) for i in range(4)]
     t += [('subprocess', i, 16) for i in range(16)]
+    t += [('validity',)]
     return t
 
 
@@ -219,6 +223,21 @@ def run_task(task):
                     if v:
                         res.violation(v[0] + ':spelling:' + which, {'kind': 'spelling', 'flags': base, 'args': args, 'names': names, 'kw': kwname}, v[1])
                     res.sample({'spelling': args}, 1)
+    elif kind == 'validity':
+        scratch = tempfile.mkdtemp(prefix='verif-c13v-', dir=os.environ.get('VERIF_SCRATCH', '/var/tmp'))
+        try:
+            for i, (argv, why) in enumerate(validity_cases(scratch)):
+                for rname, runner in (('inprocess', clidrv.run), ('subprocess', clidrv.run_subprocess)):
+                    res.count('evaluations')
+                    res.count('transitions')
+                    res.count('distinct_nontrivial')
+                    if rname == 'subprocess':
+                        res.count('traces_validated_against_impl')
+                    v = validity_violation(argv, why, scratch, runner)
+                    if v:
+                        res.violation(v[0], {'kind': 'validity', 'index': i, 'runner': rname}, v[1])
+        finally:
+            shutil.rmtree(scratch, ignore_errors=True)
     elif kind == 'subprocess':
         _, part, nparts = task
         scratch = tempfile.mkdtemp(prefix='verif-c13-', dir=os.environ.get('VERIF_SCRATCH', '/var/tmp'))
@@ -240,6 +259,59 @@ def run_task(task):
         finally:
             shutil.rmtree(scratch, ignore_errors=True)
     return res
+
+
+def validity_cases(root):
+    """(argv, why) for every documented invalid path/output combination, over a real directory with two modules and a file"""
+    d = os.path.join(root, 'pkg')
+    f1, f2 = os.path.join(d, 'a_mod.py'), os.path.join(d, 'b_mod.py')
+    single = os.path.join(root, 'single.py')
+    outp = os.path.join(root, 'result.out')
+    return [
+        ([d], 'directory without --in-place'),
+        ([d, '--output', outp], 'directory with --output'),
+        ([f1, f2], 'two files without --in-place'),
+        ([f1, f2, '--output', outp], 'two files with --output'),
+        ([single, d], 'file and directory without --in-place'),
+        (['-', single], 'stdin together with a path'),
+        ([single, '-'], 'a path together with stdin'),
+        (['-', '--in-place'], 'stdin with --in-place'),
+        ([single, '--in-place', '--output', outp], '--in-place together with --output'),
+        ([single, '--remove-class-attribute-annotations', '--no-remove-annotations'], 'class attribute annotations with --no-remove-annotations'),
+        ([d, '--in-place', '--remove-class-attribute-annotations', '--no-remove-annotations'], 'invalid annotation flags on a directory'),
+        ([], 'no path at all'),
+    ]
+
+
+def validity_violation(argv, why, root, runner):
+    import shutil as _sh
+    for name in os.listdir(root):
+        p = os.path.join(root, name)
+        _sh.rmtree(p) if os.path.isdir(p) else os.unlink(p)
+    os.makedirs(os.path.join(root, 'pkg'))
+    files = {}
+    for rel in ('pkg/a_mod.py', 'pkg/b_mod.py', 'single.py'):
+        with open(os.path.join(root, rel), 'wb') as f:
+            f.write(SOURCES[1])
+        files[rel] = SOURCES[1]
+    o = runner(argv, stdin=SOURCES[1])
+    problems = []
+    if o.exit == 0:
+        problems.append('exit status 0')
+    if o.out_bytes:
+        problems.append('wrote %d bytes to stdout' % len(o.out_bytes))
+    if os.path.exists(os.path.join(root, 'result.out')):
+        problems.append('created the --output file')
+    for rel, data in files.items():
+        with open(os.path.join(root, rel), 'rb') as f:
+            if f.read() != data:
+                problems.append('modified %s' % rel)
+    extra = sorted(set(os.listdir(root)) - {'pkg', 'single.py', 'result.out'}) + sorted(set(os.listdir(os.path.join(root, 'pkg'))) - {'a_mod.py', 'b_mod.py'})
+    if extra:
+        problems.append('created %s' % extra)
+    if problems:
+        return ('invalid-invocation-not-rejected-cleanly:' + why.replace(' ', '-'), 'argv %s (%s): %s\n%r' % (argv, why, '; '.join(problems), o))
+    return None
 
 
 def subprocess_violation(flags, src, mode, scratch):
@@ -290,6 +362,14 @@ def replay(case):
     if k == 'spelling':
         v = bytes_violation(case['flags'], PRESERVE_SRC, case['args'], {case['kw']: list(case['names'])})
         return v and {'signature': v[0] + ':spelling:' + ('locals' if 'locals' in case['kw'] else 'globals'), 'detail': v[1]}
+    if k == 'validity':
+        scratch = tempfile.mkdtemp(prefix='verif-c13v-', dir=os.environ.get('VERIF_SCRATCH', '/var/tmp'))
+        try:
+            argv, why = validity_cases(scratch)[case['index']]
+            v = validity_violation(argv, why, scratch, clidrv.run if case['runner'] == 'inprocess' else clidrv.run_subprocess)
+        finally:
+            shutil.rmtree(scratch, ignore_errors=True)
+        return v and {'signature': v[0], 'detail': v[1]}
     if k == 'subprocess':
         scratch = tempfile.mkdtemp(prefix='verif-c13-', dir=os.environ.get('VERIF_SCRATCH', '/var/tmp'))
         try:
